@@ -55,7 +55,11 @@ func (c *checkSchema) checkType(name string, typ schema.Type, ss map[string]sche
 		panic(r)
 	}()
 
-	c.checkNode(typ.Schema().RootNode(), ss)
+	root := typ.Schema().RootNode()
+	if root == nil {
+		panic(errors.NewDocumentError(typ.RootFile(), errors.Format(errors.ErrEmptyType, name)))
+	}
+	c.checkNode(root, ss)
 }
 
 func (c *checkSchema) checkerList(node schema.Node, ss map[string]schema.Type) []nodeChecker {
